@@ -179,6 +179,10 @@ class ExprMixin:
     def e_Name(self, node, st):
         n = node.id
         if n in st.env:
+            lk = st.ghost.get(("link", n))
+            if lk is not None:
+                # the local aliases a container stored in a heap field: it is read THROUGH the field (reference semantics)
+                return self.read_field(st, lk[0], lk[2])
             v = st.env[n]
             if v is None:
                 raise Unsupported(f"variable {n} may be unbound here", node)
@@ -402,7 +406,13 @@ class ExprMixin:
     # ---- attribute / subscript -----------------------------------------------------
     def e_Attribute(self, node, st):
         recv = self.eval(node.value, st)
-        return self.getattr(recv, node.attr, st, node)
+        self._attr_src = None
+        v = self.getattr(recv, node.attr, st, node)
+        src = self._attr_src
+        self._attr_src = None
+        if src is not None and src[2] == node.attr:
+            self._last_attr = (node, src)  # which heap cell this attribute expression denotes (for alias tracking)
+        return v
 
     def getattr(self, recv: Val, name: str, st, node=None) -> Val:
         recv = self.deopt(recv, st, node)
